@@ -251,6 +251,13 @@ def b_list(c):
         c.ret(("lit", kind if kind in ("list", "tuple") else "list", (), c.site[:3]), pure=False)
         return
     x = c.args[0]
+    if c.callee in ("builtin:list", "builtin:tuple") and len(c.args) == 1 and not c.kwargs and isinstance(x, tuple) and len(x) == 2 and x[0] == "global" and x[1].startswith("const:"):
+        # list(CONSTANT) with a module-level list / tuple display (never stored into: C12-R2): a
+        # fresh display of its items
+        lit0 = c.w.eng.const_literal(x[1][6:])
+        if lit0 is not None and is_lit(lit0) and lit0[1] in ("list", "tuple") and all(is_const(i) for i in lit0[2]):
+            c.ret(("lit", c.callee[8:], lit0[2], c.site[:3] if c.callee == "builtin:list" else None), pure=False)
+            return
     if c.callee in ("builtin:list", "builtin:tuple") and len(c.args) == 1 and not c.kwargs and is_lit(x) and x[1] in ("list", "tuple"):
         from .walker import _deep_events, _root_term
 
